@@ -222,6 +222,8 @@ static int mk_poly(Call *c, int fn, int shape, int anchor, int scale, int res, u
     int capmode = scale >> 4;  // 0 full capacity; 1 count-1; 2 count/2; 3 one slot; 4 zero (polygonToCellsExperimental only)
     scale &= 15;
     c->kind = 3, c->fn = fn, c->flags = flags;
+    int callres = res;
+    if (res < 0 || res > 15) res = 5;  // resolution outside the domain: polygon built for res 5, call made with the bad resolution
     if (shape >= 100) {
         // degenerate polygons (error-path / edge inputs): 100 empty outer loop, 101 one vertex, 102 two vertexes, 103 triangle with an empty hole,
         // 104 empty outer loop with a (non-empty) hole, 105 triangle + two holes one of which is empty
@@ -266,6 +268,13 @@ static int mk_poly(Call *c, int fn, int shape, int anchor, int scale, int res, u
     c->poly.gp.geoloop.verts = c->poly.outer.v;
     c->poly.gp.holes = c->poly.nh ? c->poly.hl : NULL;
     int64_t sz = 0;
+    if (callres != res) {
+        if (capmode) return -1;
+        c->poly.res = callres;
+        c->nout = c->cap = 16;
+        c->out = malloc(17 * 8);
+        return 0;
+    }
     H3Error e = fn == 0 ? ref_maxPolygonToCellsSize(&c->poly.gp, res, 0, &sz) : ref_maxPolygonToCellsSizeExperimental(&c->poly.gp, res, flags <= 3 ? flags : 0, &sz);
     if (e || sz > 20000) return -1;
     if (fn == 2) sz = 0;
@@ -443,6 +452,21 @@ static void ph_poly_capacity(void *u) {
                             MC_RUN(OP_POLY, I(1), I(shapes[si]), I(g_polyanchors[ai]), I(sc + 16 * cm), I(ress[ri]), I(fl));
                         }
 }
+// resolutions outside 0..15 (and flag values outside the documented ones) on well-formed polygons with and without holes
+static void ph_poly_badres(void *u) {
+    static const int shapes[] = {1, 6, 8, 3, 0}, ress[] = {-1, 16, 17, -2147483647 - 1, 2147483647, 255, 256};
+    static const uint32_t flagsE[] = {0, 1, 2, 3, 4, 0x10, 0x100, 0x80000002u};
+    uint64_t idx = 0;
+    for (int ai = 0; ai < g_npa; ai += 3)
+        for (int si = 0; si < 5; si++)
+            for (int ri = 0; ri < 7; ri++)
+                for (int fn = 0; fn < 3; fn++)
+                    for (int fi = 0; fi < 8; fi++, idx++) {
+                        if (!mc_mine(idx)) continue;
+                        if (mc_expired()) return;
+                        MC_RUN(OP_POLY, I(fn), I(shapes[si]), I(g_polyanchors[ai]), I(1), I(ress[ri]), I(flagsE[fi]));
+                    }
+}
 static void ph_poly_degenerate(void *u) {
     static const uint32_t flagsE[] = {0, 1, 2, 3, 4, 0x10};
     uint64_t idx = 0;
@@ -480,7 +504,7 @@ int main(int argc, char **argv) {
         if (k == 1 || (k == 0 && an % (mc_thorough ? 2 : 3) == 0) || (k == 5 && an % 3 == 0) || (k == 2 && an % (mc_thorough ? 8 : 15) == 0) || ((k == 3 || k == 4 || k == 6) && an % (mc_thorough ? 1 : 2) == 0)) g_polyanchors[g_npa++] = an;
     }
     snprintf(mc_bounds, sizeof mc_bounds, "fault bound: every single index, every persistent-from index, every pair (n<=14); disks: CLOSE(pentagons,2)+hexagons at %s x k 1..%d x distances NULL/non-NULL; "
-             "areNeighborCells: CLOSE(pentagons,1) at %d resolutions x ball 2; compactCells: 7 kinds x depth 1..%d on 36 roots (12 base cells x res 0,5,10) + full/partial descendant sets of N in {1,2,5,6,7,8,12,20,49,121,122} base cells (3 selections) at res 1..3(4); polygons: %d shapes x %d anchors x %d scales x %d resolutions x (legacy, experimental x 6 flag values, size x 6) + 11 degenerate polygons (empty / 1- / 2-vertex outer loop, empty holes, holes with NaN / infinite vertexes, a hole 40x larger than or far outside the outer loop) x anchors x 6 resolutions; capacities {count-1, count/2, 1, 0} x 4 modes; "
+             "areNeighborCells: CLOSE(pentagons,1) at %d resolutions x ball 2; compactCells: 7 kinds x depth 1..%d on 36 roots (12 base cells x res 0,5,10) + full/partial descendant sets of N in {1,2,5,6,7,8,12,20,49,121,122} base cells (3 selections) at res 1..3(4); polygons: %d shapes x %d anchors x %d scales x %d resolutions x (legacy, experimental x 6 flag values, size x 6) + 11 degenerate polygons (empty / 1- / 2-vertex outer loop, empty holes, holes with NaN / infinite vertexes, a hole 40x larger than or far outside the outer loop) x anchors x 6 resolutions; capacities {count-1, count/2, 1, 0} x 4 modes; resolutions {-1,16,17,INT_MIN,INT_MAX,255,256} x 5 shapes x 8 flag values x 3 functions; "
              "disks from invalid origins (digit 7 at every position, deleted sub-sequence, base cells 122/127, high bit, wrong mode, reserved bits) x k 0..3",
              "all 16 resolutions", mc_thorough ? 9 : 7, 16, mc_thorough ? 6 : 5, 11, g_npa, 3, 13);
     static const int dres[] = {0, 1, 2, 5, 9, 13, 3, 7, 11, 15, 4, 6, 8, 10, 12, 14};
@@ -518,6 +542,7 @@ int main(int argc, char **argv) {
     mc_phase("compactCells over many base cells", ph_compact_multi, NULL);
     mc_phase("polygon fills", ph_poly, NULL);
     mc_phase("degenerate polygons", ph_poly_degenerate, NULL);
+    mc_phase("polygons with a resolution outside 0..15", ph_poly_badres, NULL);
     mc_phase("polygonToCellsExperimental with too small a capacity", ph_poly_capacity, NULL);
     return mc_finish();
 }
